@@ -42,7 +42,7 @@ json run_read_job(const json& job) {
         CdnsReader reader(*in);
         r["hdr"] = "ok";
         if (dump != "none") r["preamble"] = preamble2j(reader.m_file_preamble);
-        if (render) render_bytes += reader.m_file_preamble.string().size();
+        if (render) racc(render_bytes, reader.m_file_preamble.string());
         hook_ok = hook_ok && Access::dec_consistent(Access::rdr_decoder(reader));
         try {
             while (true) {
